@@ -152,7 +152,7 @@ def tpl_item_source(i):
     if t == "const": return "" if i[1] == "" else "(" + escape_regex(i[1]) + ")"
     if t == "oneof":
         parts = [tpl_item_source(x) for x in i[1]]
-        return "(" + "|".join(p for p in parts if p != "") + ")"
+        return "(" + "|".join(p for p in parts if p != "") + ")" + ("?" if any(p == "" for p in parts) else "")
     raise ValueError(i)
 
 
